@@ -31,6 +31,15 @@ def _pin_zarr_threads():
 
 _pin_zarr_threads()
 
+# cubed sets Zarr's global `array.write_empty_chunks` when its storage module is first imported - lazily, i.e. in the
+# middle of the first run of a process, after the harness has already written that run's Zarr inputs with Zarr's own
+# default. Import it now, so that the first run of an interpreter does not differ from the later ones (found by the
+# determinism self-test: an all-fill input chunk was a `miss` in the first run and a `hit` in the second).
+try:
+    import cubed.storage.stores.zarr_python_v3  # noqa: E402,F401
+except Exception:  # noqa: BLE001
+    pass
+
 from .loop import install_deterministic_zarr_loop  # noqa: E402
 
 ZARR_LOOP = install_deterministic_zarr_loop()
